@@ -180,6 +180,50 @@ def pt_rule(ctx, rep, rule="C02.PT"):
         rep.violate(Violation(rule, f"{rule}|{b[:70]}", b, "", "protect_via_deepcopy", [], "protect_via_deepcopy"))
 
 
+def dc_rule(ctx, rep, rule="C02.DC"):
+    # ---- C02.DC
+    rep.rules[rule] = "decision table of __deepcopy__ over {class do_not_copy, attr_spec found, attr do_not_copy, bound method of self}"
+    r = pmap(dc_worker, [0])[0]
+    rep.functions |= set(r["functions"])
+    rep.evaluations += len(r["rows"])
+    seen_copy = seen_ident = seen_skip = False
+    bad = []
+    for row in r["rows"]:
+        d = row["dec"]
+        if row["kind"] != "ok":
+            continue
+        if d.get("class_do_not_copy"):
+            if row["ret"] != "self":
+                bad.append("class-level do_not_copy must return the instance itself")
+            continue
+        if d.get("frozen") and row["ret"] == "self":
+            bad.append("frozen instance: __deepcopy__ returns the instance itself (copy-on-write helpers then write the receiver)")
+            continue
+        if "FRESH" not in row["ret_prov"] or row["ret"] == "self":
+            bad.append(f"returns {row['ret']} instead of the newly allocated instance")
+        for tgt, val, vprov in row["stores"]:
+            if "RECV" in vprov and val not in row["imm"]:
+                if d.get("attr_do_not_copy"):
+                    seen_ident = True
+                else:
+                    bad.append(f"stores receiver value {val} uncopied without do_not_copy (decisions {d})")
+            elif "FRESH" in vprov:
+                if d.get("attr_do_not_copy") and d.get("attr_spec_found", True):
+                    bad.append("do_not_copy attribute is duplicated instead of carried by identity")
+                seen_copy = True
+        if d.get("ismethod") and d.get("bound_to_self") and not row["stores"]:
+            seen_skip = True
+        if not row["stores"] and (row.get("entered") or any(k in d for k in ("attr_do_not_copy", "ismethod", "attr_spec_found"))):
+            bad.append(f"__dict__ entry dropped from the copy (decisions {d or 'of the skipped entry'})")
+    rep.sample({"entry": "DeepCopyMethod.deepcopy", "rows": r["rows"][:4]})
+    if not (seen_copy and seen_ident):
+        raise AnalysisError(f"{rule}: decision table incomplete (copy row {seen_copy}, identity row {seen_ident})")
+    rep.oblige(rule, "DeepCopyMethod.deepcopy", not bad, "; ".join(sorted(set(bad))[:3]))
+    for b in sorted(set(bad)):
+        rep.violate(Violation(rule, f"{rule}|{b[:70]}", b, "", "DeepCopyMethod.deepcopy", [], "deepcopy"))
+
+
+
 def _check_main(ctx, rep: Report):
     rep.rules["C02.S"] = ("per helper, _inplace=False: no write into a fresh object stores a receiver-reachable, "
                           "non-immutable value; the helper does not return a receiver-reachable part; "
@@ -228,47 +272,7 @@ def _check_main(ctx, rep: Report):
             rep.violate(Violation("C02.RET", f"C02.RET|mutate_attr|{r['variant']}|frozen={r['frozen']}|{bad[0][:60]}",
                                   f"mutate_attr(inplace=False, frozen={r['frozen']}): {bad[0]}", "", "mutate_attr", bad, name))
 
-    # ---- C02.DC
-    rep.rules["C02.DC"] = "decision table of __deepcopy__ over {class do_not_copy, attr_spec found, attr do_not_copy, bound method of self}"
-    r = pmap(dc_worker, [0])[0]
-    rep.functions |= set(r["functions"])
-    rep.evaluations += len(r["rows"])
-    seen_copy = seen_ident = seen_skip = False
-    bad = []
-    for row in r["rows"]:
-        d = row["dec"]
-        if row["kind"] != "ok":
-            continue
-        if d.get("class_do_not_copy"):
-            if row["ret"] != "self":
-                bad.append("class-level do_not_copy must return the instance itself")
-            continue
-        if d.get("frozen") and row["ret"] == "self":
-            bad.append("frozen instance: __deepcopy__ returns the instance itself (copy-on-write helpers then write the receiver)")
-            continue
-        if "FRESH" not in row["ret_prov"] or row["ret"] == "self":
-            bad.append(f"returns {row['ret']} instead of the newly allocated instance")
-        for tgt, val, vprov in row["stores"]:
-            if "RECV" in vprov and val not in row["imm"]:
-                if d.get("attr_do_not_copy"):
-                    seen_ident = True
-                else:
-                    bad.append(f"stores receiver value {val} uncopied without do_not_copy (decisions {d})")
-            elif "FRESH" in vprov:
-                if d.get("attr_do_not_copy") and d.get("attr_spec_found", True):
-                    bad.append("do_not_copy attribute is duplicated instead of carried by identity")
-                seen_copy = True
-        if d.get("ismethod") and d.get("bound_to_self") and not row["stores"]:
-            seen_skip = True
-        if not row["stores"] and (row.get("entered") or any(k in d for k in ("attr_do_not_copy", "ismethod", "attr_spec_found"))):
-            bad.append(f"__dict__ entry dropped from the copy (decisions {d or 'of the skipped entry'})")
-    rep.sample({"entry": "DeepCopyMethod.deepcopy", "rows": r["rows"][:4]})
-    if not (seen_copy and seen_ident):
-        raise AnalysisError(f"C02.DC: decision table incomplete (copy row {seen_copy}, identity row {seen_ident})")
-    rep.oblige("C02.DC", "DeepCopyMethod.deepcopy", not bad, "; ".join(sorted(set(bad))[:3]))
-    for b in sorted(set(bad)):
-        rep.violate(Violation("C02.DC", f"C02.DC|{b[:70]}", b, "", "DeepCopyMethod.deepcopy", [], "deepcopy"))
-
+    dc_rule(ctx, rep)
     pt_rule(ctx, rep)
 
 
@@ -294,3 +298,4 @@ def check(ctx, rep):
     _check_main(ctx, rep)
     metarules.attr_spec_writers(ctx, rep, "C02.SPEC")
     metarules.deepcopy_memo(ctx, rep, "C02.DC")
+    metarules.for_class_rule(ctx, rep, "C02.META", ("dnc",))
